@@ -67,4 +67,34 @@ theorem idx_count {W cap n : Nat} (h : cap ∣ W ∨ n < W) : (n % W) % cap = n 
   | inl hd => exact Nat.mod_mod_of_dvd n hd
   | inr hl => rw [Nat.mod_eq_of_lt hl]
 
+/-- `n.next_power_of_two()` (smallest power of two `≥ n`; 1 for `n ≤ 1`) -/
+def nextPow2 (n : Nat) : Nat := if n ≤ 1 then 1 else 2 ^ (Nat.log2 (n - 1) + 1)
+
+theorem nextPow2_isPow (n : Nat) : ∃ j, nextPow2 n = 2 ^ j := by
+  unfold nextPow2; split
+  · exact ⟨0, rfl⟩
+  · exact ⟨_, rfl⟩
+
+theorem le_nextPow2 (n : Nat) : n ≤ nextPow2 n := by
+  unfold nextPow2; split
+  · omega
+  · have := @Nat.lt_log2_self (n - 1); omega
+
+theorem nextPow2_dvd {n k : Nat} (h : n ≤ 2 ^ k) : nextPow2 n ∣ 2 ^ k := by
+  unfold nextPow2; split
+  · exact Nat.one_dvd _
+  · rename_i hn
+    have h1 : n - 1 ≠ 0 := by omega
+    have h2 : Nat.log2 (n - 1) < k := (Nat.log2_lt h1).2 (by omega)
+    exact Nat.pow_dvd_pow 2 (by omega)
+
+/-- `x & mask` for `mask = 2^j - 1` is `x % 2^j` -/
+theorem and_mask_eq_mod {x mask j : Nat} (h : mask + 1 = 2 ^ j) : x &&& mask = x % (mask + 1) := by
+  have : mask = 2 ^ j - 1 := by omega
+  rw [h, this]; exact Nat.and_two_pow_sub_one_eq_mod x j
+
+/-- the slot index computed from the wrapped counter equals the one computed from the true counter
+when the slot count divides the word modulus -/
+theorem idx_count' {W n x : Nat} (h : n ∣ W) : (x % W) % n = x % n := Nat.mod_mod_of_dvd x h
+
 end RtcModel.C20Word
